@@ -343,7 +343,8 @@ class Check:
         if undecided and code == 0:
             code = 2
         for ob in undecided[:20]:
-            print(f"UNDECIDED property={self.prop} obligation={ob.name} status={ob.status} {ob.detail[:200]}")
+            why = f" | witness: {str(ob.witness)[:240]}" if ob.kind == "struct" and ob.witness else ""
+            print(f"UNDECIDED property={self.prop} obligation={ob.name} status={ob.status} {ob.detail[:200]}{why}".replace("\n", " "))
         for ob, kf in known_hits:
             print(f"KNOWN-FINDING: property={self.prop} {kf.get('what', ob.name)} [obligation={ob.name}]")
         if violations:
@@ -433,7 +434,8 @@ class Check:
                 "known_findings_hit": [
                     {"obligation": o.name, "finding": kf.get("id", kf.get("what"))} for o, kf in known_hits
                 ],
-                "undecided": [{"obligation": o.name, "status": o.status, "detail": o.detail[:200]} for o in undecided],
+                "undecided": [{"obligation": o.name, "status": o.status, "detail": o.detail[:200],
+                               **({"witness": str(o.witness)[:300]} if o.kind == "struct" and o.witness else {})} for o in undecided],
                 "violations": [
                     {"obligation": o.name, "replay": p, "input_found": h} for o, p, h in violations
                 ],
